@@ -56,6 +56,8 @@ class Ctx:
         self.notes = {}
         self.t0 = time.time()
         self.deadline = None
+        self._prnd = random.Random(seed * 977 + shard * 13 + 5)
+        self.error_paths = os.environ.get("VERIF_NO_ERROR_PATHS") is None and tier != "replay"
 
     def count(self, k, n=1):
         self.counters[k] += n
@@ -85,6 +87,12 @@ class Ctx:
             self.foreign.append({"property": prop, "msg": msg})
 
     def out_of_time(self):
+        """Called by every check between two cases: also the point where an error-path history step is thrown in (a library call
+        that is refused deep inside a nested visit; see vmon/poison.py) - the following case is judged as always."""
+        if self.error_paths and self._prnd.random() < 0.2:
+            from . import poison
+
+            poison.throw(self._prnd, self)
         return self.deadline is not None and time.time() > self.deadline
 
     def result(self):
@@ -179,6 +187,8 @@ def shard_entry(argv):
         from .hooks import LineCov
 
         cov = LineCov(REPO, anchors).start()
+    if sys.flags.optimize:
+        ctx.count("shards-run-with-assertions-stripped (python -O)")
     try:
         mod.shard_main(ctx)
     except Exception:
@@ -231,8 +241,11 @@ def run_check(prop, tier, replay=None):
     procs = []
     for k in range(nsh):
         out = os.path.join(work, f"shard{k}.json")
+        # configuration dimension: every eighth shard runs the library with assertions stripped (python -O); the library uses
+        # assert statements on its paths, the properties do not depend on the interpreter's optimisation mode
+        opt = ["-O"] if (k % 8 == 7 and not os.environ.get("VERIF_NO_O")) else []
         p = subprocess.Popen(
-            [PY, "-B", "-m", "vmon.core", "--shard", prop, tier, str(seed), str(k), str(nsh), out],
+            [PY, "-B"] + opt + ["-m", "vmon.core", "--shard", prop, tier, str(seed), str(k), str(nsh), out],
             cwd=VERIF, env=env, stdout=subprocess.PIPE, stderr=subprocess.STDOUT,
         )
         procs.append((k, p, out))
